@@ -11,7 +11,7 @@
    Part 6  a small interpreter for the straight-line dump section (exact rationals Qc) and the
            independent roll-up computed from the specification. *)
 From Coq Require Import String List Bool Ascii ZArith QArith Qcanon.
-Require Import TV.Model.Fusion.
+Require Import TV.Model.Fusion TV.Model.Show.
 Import ListNotations.
 Open Scope string_scope.
 Open Scope list_scope.
@@ -641,3 +641,152 @@ Definition spec_comps (es : list espec) (e : string) : list string :=
 Definition oracle_time (divf : arch -> string -> string -> option Z) (a : arch) (env : senv) (es : list espec)
            (blocks : list (list string)) : Qc :=
   rollup Qcplus Qcmax 0%Qc (spec_ctime divf a env es) (spec_comps es) blocks.
+
+(* ------------------------------------------------------------------------- *)
+(* Part 7: the per-program report evaluated by the kernel (tools/props/c14.py) *)
+(* ------------------------------------------------------------------------- *)
+Fixpoint texp_eqb (x y : texp) : bool :=
+  match x, y with
+  | TLeaf e c, TLeaf e' c' => String.eqb e e' && String.eqb c c'
+  | TZero, TZero => true
+  | TAdd a b, TAdd a' b' | TMax a b, TMax a' b' => texp_eqb a a' && texp_eqb b b'
+  | _, _ => false
+  end.
+
+Definition show_Qc (q : Qc) : string := (show_Z (Qnum q) ++ "/" ++ show_Z (Zpos (Qden q)))%string.
+
+(* an unknown runtime count is an opaque value: harmless unless it flows into a time *)
+Definition lenient (r : res val) : res val :=
+  match r with
+  | Err m => if String.prefix "unexpected" m then Ok VOpq else Err m
+  | ok => ok
+  end.
+
+Fixpoint meval_l (env : senv) (st : dstate) (e : mexp) : res val :=
+  match e with
+  | MAdd a b =>
+      match meval_l env st a, meval_l env st b with
+      | Ok (VNum x), Ok (VNum y) => Ok (VNum (x + y)%Qc)
+      | Err m, _ => Err m
+      | _, Err m => Err m
+      | Ok VOpq, Ok (VNum _) | Ok (VNum _), Ok VOpq | Ok VOpq, Ok VOpq => Ok VOpq
+      | _, _ => Err "TypeError +"
+      end
+  | MDiv a b =>
+      match meval_l env st a, meval_l env st b with
+      | Ok (VNum x), Ok (VNum y) => if Qc_eq_dec y 0%Qc then Err "ZeroDivisionError" else Ok (VNum (x / y)%Qc)
+      | Err m, _ => Err m
+      | _, Err m => Err m
+      | Ok VOpq, Ok (VNum _) | Ok (VNum _), Ok VOpq | Ok VOpq, Ok VOpq => Ok VOpq
+      | _, _ => Err "TypeError /"
+      end
+  | MMax a b =>
+      match meval_l env st a, meval_l env st b with
+      | Ok (VNum x), Ok (VNum y) => Ok (VNum (Qcmax x y))
+      | Err m, _ => Err m
+      | _, Err m => Err m
+      | Ok VOpq, Ok (VNum _) | Ok (VNum _), Ok VOpq | Ok VOpq, Ok VOpq => Ok VOpq
+      | _, _ => Err "TypeError max"
+      end
+  | _ => lenient (meval env st e)
+  end.
+
+Definition set_metrics (st : dstate) (m : val) : dstate :=
+  mkD (Some m) (d_prefix st) (d_ntraffic st) (d_bindings st) (d_traffic st).
+
+Definition dstep_l (env : senv) (st : dstate) (s : dstmt) : res dstate :=
+  match s with
+  | DSet path e =>
+      match meval_l env st e with
+      | Ok v => match d_metrics st with
+                | Some m => match vset m path v with
+                            | Some m' => Ok (set_metrics st m')
+                            | None => Err ("KeyError/TypeError storing metrics/" ++ show_key path)%string
+                            end
+                | None => Err "NameError metrics"
+                end
+      | Err m => Err m
+      end
+  | DInc path e =>
+      match meval_l env st (MAdd (MGet path) e) with
+      | Ok v => match d_metrics st with
+                | Some m => match vset m path v with
+                            | Some m' => Ok (set_metrics st m')
+                            | None => Err ("KeyError storing metrics/" ++ show_key path)%string
+                            end
+                | None => Err "NameError metrics"
+                end
+      | Err m => Err m
+      end
+  | _ => dstep env st s
+  end.
+
+Fixpoint drun_l (env : senv) (st : dstate) (p : list dstmt) : res dstate :=
+  match p with
+  | [] => Ok st
+  | s :: p' => match dstep_l env st s with Ok st' => drun_l env st' p' | Err m => Err m end
+  end.
+
+Definition final_num (st : dstate) (path : list string) : option Qc :=
+  match d_metrics st with
+  | Some m => match vget m path with Some (VNum q) => Some q | _ => None end
+  | None => None
+  end.
+
+Definition text_comps (p : list dstmt) (e : string) : list string :=
+  map (fun a => snd (fst (fst a))) (filter (fun a => String.eqb (fst (fst (fst a))) e) (time_assigns p)).
+
+Definition opt_Z (o : option Z) : string := match o with Some z => show_Z z | None => "-" end.
+
+(* env-independent part *)
+Definition static_report (a : arch) (blocks : list (list string)) (es : list espec) (p : list dstmt) : string :=
+  let comps := text_comps p in
+  let tas := time_assigns p in
+  let targets := map (fun t => (fst (fst (fst t)), snd (fst (fst t)))) tas in
+  let ox := match time_rhs p None with Some m => to_texp m | None => None end in
+  let names := map es_name es in
+  String.concat "#"
+    [ show_blocks blocks;
+      match ox with Some x => show_bool (time_okb comps blocks x) | None => "-" end;
+      match ox, build_time comps blocks with
+      | Some x, Some y => show_bool (texp_eqb x y)
+      | _, _ => "-"
+      end;
+      match ox with
+      | Some x => show_bool (nodup_leafb (leaves x) && msetb leaf_eqb (leaves x) targets)
+      | None => "-"
+      end;
+      show_bool (forallb (fun e => msetb String.eqb (comps e) (spec_comps es e)) names
+                 && forallb (fun t => mem (fst t) names) targets);
+      String.concat ";"
+        (map (fun t =>
+                let '(e, c, _, k) := t in
+                let cfg := match find_espec es e with Some s => es_config s | None => "" end in
+                String.concat "," [e; c; opt_Z k; opt_Z (spec_divisor a cfg c); opt_Z (code_divisor a cfg c)])
+             tas) ]%string.
+
+(* one execution of the dump on the stand-in counts `env` *)
+Definition run_report (a : arch) (blocks : list (list string)) (es : list espec) (p : list dstmt) (env : senv) : string :=
+  let exp_s := oracle_time spec_divisor a env es blocks in
+  let exp_c := oracle_time code_divisor a env es blocks in
+  match drun_l env dinit p with
+  | Err m => ("ERR " ++ m ++ "@-@" ++ show_Qc exp_s ++ "@" ++ show_Qc exp_c ++ "@")%string
+  | Ok st =>
+      String.concat "@"
+        [ "OK";
+          match final_num st ["time"] with Some q => show_Qc q | None => "-" end;
+          show_Qc exp_s; show_Qc exp_c;
+          String.concat ";"
+            (map (fun t =>
+                    let '(e, c, _, _) := t in
+                    match final_num st [e; c; "time"] with
+                    | Some q => String.concat "," [e; c;
+                                  show_bool (Qc_eq_bool q (spec_ctime spec_divisor a env es e c));
+                                  show_bool (Qc_eq_bool q (spec_ctime code_divisor a env es e c))]
+                    | None => String.concat "," [e; c; "-"; "-"]
+                    end)
+                 (time_assigns p)) ]%string
+  end.
+
+Definition c14_report (a : arch) (blocks : list (list string)) (es : list espec) (p : list dstmt) (envs : list senv) : string :=
+  (static_report a blocks es p ++ "#" ++ String.concat "|" (map (run_report a blocks es p) envs))%string.
